@@ -299,6 +299,9 @@ func (m *M) Run(src string) error {
 // procedure body: procedures are pushed, everything else is executed.
 func (m *M) execTop(v Val) error {
 	if a, ok := v.(Arr); ok && a.X {
+		if err := m.tick(); err != nil {
+			return err
+		}
 		return m.push(v)
 	}
 	return m.exec(v)
